@@ -99,6 +99,6 @@ def main():
     print("claimed", len(checks), "not applicable", len(na))
 
 NOT_YET = {}
-HOOK_COMMITS = ["57dbf80"]
+HOOK_COMMITS = ["57dbf80", "9859bf3"]
 if __name__ == "__main__":
     main()
